@@ -5,3 +5,4 @@ pub mod types;
 pub mod tracker;
 pub mod run;
 pub mod gen;
+pub mod unit;
